@@ -164,8 +164,15 @@ def run(ctx):
     rng0 = random.Random(ctx.seed)
     rng0.shuffle(fp)
     focusprogs += fp[:(400 if thorough else 60)]
+    # every type of the pool (both kinds of includes on) used once as the only argument, result or scope operation of an otherwise
+    # empty user (focus "uses", exhaustive): an import the generator forgets has nothing else to hide behind
+    r = ctx.tlc_must_hold("IDL", "i.cfg", cfg_text=idl_cfg("FALSE", 1, "FALSE", focus="uses").replace("CHECK_DEADLOCK", "CONSTRAINT Bounded\nCHECK_DEADLOCK"),
+                          workers=4, timeout=1200)
+    uses = list(dict.fromkeys(s[5:] for s in r.printed if s.startswith("PROG ")))
+    ctx.extra["focus_uses_programs"] = len(uses)
+    focusprogs += uses
     focusprogs = list(dict.fromkeys(focusprogs))
-    ctx.extra["focus_enumrefs_programs"] = len(focusprogs)
+    ctx.extra["focus_enumrefs_programs"] = len(focusprogs) - len(uses)
     # every invalidating edit applied to a program in which all of them are applicable (focus "breaks", exhaustive)
     r = ctx.tlc_must_hold("IDL", "i.cfg", cfg_text=idl_cfg("FALSE", 1, "TRUE", focus="breaks").replace("CHECK_DEADLOCK", "CONSTRAINT Bounded\nCHECK_DEADLOCK"),
                           workers=4, timeout=600)
